@@ -741,4 +741,210 @@ theorem counted_var_loop_chain (img : Image) (top : Nat) (b : List Instr) (v : S
     · rw [hfin, hgv2, hinc, List.length_cons, addN_succ']
 
 
+/-! ## values of the index variable -/
+
+theorem natCast_succ_rat (k : Nat) : ((k + 1 : Nat) : Rat) = (k : Rat) + 1 := by
+  simp [Rat.natCast_add]
+
+/-- **series_closed_form.**  Adding a numeric increment `k` times to a numeric start, one VM
+addition (`Vm.binOp .add`, i.e. `Val.add`) at a time: the value is `x + k·d` exactly, an int as
+long as everything added so far is an int, a float from the first float on. -/
+theorem C04_series_closed_form (xv iv : Val) (x d : Rat) (fx fd : Bool) (hx : Num xv x fx)
+    (hd : Num iv d fd) (k : Nat) :
+    Num (addN xv iv k) (x + (k : Rat) * d) (if k = 0 then fx else fx || fd) := by
+  induction k with
+  | zero =>
+    have : x + ((0 : Nat) : Rat) * d = x := by simp [Rat.add_zero]
+    rw [this]; exact hx
+  | succ k ih =>
+    obtain ⟨hadd, hnum⟩ := num_add ih hd
+    have e : x + (k : Rat) * d + d = x + ((k + 1 : Nat) : Rat) * d := by
+      rw [natCast_succ_rat]; grind
+    have hf : ((if k = 0 then fx else fx || fd) || fd) = (fx || fd) := by
+      split <;> cases fx <;> cases fd <;> rfl
+    have hflag : (if k + 1 = 0 then fx else fx || fd) = ((if k = 0 then fx else fx || fd) || fd) := by
+      rw [hf]; simp
+    have hval : addN xv iv (k + 1) = Val.mkNum (x + (k : Rat) * d + d) ((if k = 0 then fx else fx || fd) || fd) := by
+      simp only [addN, addVal, hadd, Option.getD_some]
+    rw [hflag, ← e, hval]
+    exact hnum
+
+/-- the same with `Vm.binOp`, as `Sem.execLoop`'s `series` folds it -/
+theorem C04_series_binOp (xv iv : Val) (x d : Rat) (fx fd : Bool) (hx : Num xv x fx)
+    (hd : Num iv d fd) (k : Nat) :
+    (List.range k).foldlM (fun acc _ => Vm.binOp .add acc iv) xv = some (addN xv iv k) := by
+  induction k with
+  | zero => rfl
+  | succ k ih =>
+    rw [List.range_succ, List.foldlM_append, ih]
+    have := (num_add (C04_series_closed_form xv iv x d fx fd hx hd k) hd).1
+    simp [binOp, addN, addVal, this]
+
+/-! ## prologues -/
+
+theorem _root_.Bardolph.VmSteps.CodeAt.slice {img : Image} {pc : Nat} {code : List Instr} (h : CodeAt img pc code)
+    (i n : Nat) : CodeAt img (pc + i) ((code.drop i).take n) := by
+  intro k hk
+  simp only [List.length_take, List.length_drop] at hk
+  have := h (i + k) (by omega)
+  rw [Nat.add_assoc, this]
+  simp [List.getElem_take, List.getElem_drop]
+
+theorem _root_.Bardolph.VmSteps.CodeAt.get {img : Image} {pc : Nat} {code : List Instr} (h : CodeAt img pc code)
+    (i : Nat) (hi : i < code.length) : img.code[pc + i]? = some code[i] := h i hi
+
+/-- `MOVEQ v <loop variable>` -/
+theorem run_moveq_lv (img : Image) (s : State) (pc : Nat) (l : LoopVar) (v : Val)
+    (vars : List (LoopVar × Val)) (h : Nat) (rest : List Frame)
+    (hs : s.status = .running) (hpc : s.pc = (pc : Int))
+    (hi : img.code[pc]? = some (.moveq v (.loopVar l))) (hst : s.stack = .loop vars h :: rest) :
+    run img 1 s = { s with pc := (pc : Int) + 1, stack := .loop (setLV vars l v) h :: rest } := by
+  have hput : s.put (.loopVar l) v = { s with stack := .loop (setLV vars l v) h :: rest } := by
+    simp only [State.put, putLoopVar_eq hst]
+  rw [run_one _ _ hs, step_moveq img s pc v (.loopVar l) hs hpc hi (by simp) (by rw [hput]; exact hs), hput]
+  simp [hpc]
+
+/-- `MOVE <loop variable> <variable>` -/
+theorem run_move_lv_var (img : Image) (s : State) (pc : Nat) (l : LoopVar) (n : String)
+    (vars : List (LoopVar × Val)) (h : Nat) (rest : List Frame)
+    (hs : s.status = .running) (hpc : s.pc = (pc : Int))
+    (hi : img.code[pc]? = some (.move (.loopVar l) (.var n))) (hst : s.stack = .loop vars h :: rest) :
+    run img 1 s = { s.putVariable n (getLV vars l) with pc := (pc : Int) + 1 } := by
+  rw [run_one _ _ hs, step_move img s pc _ _ hs hpc hi (by simpa [State.put, putVariable_status] using hs)]
+  simp [State.put, State.read, getLoopVar_eq hst, putVariable_pc, hpc]
+
+theorem run_jump_always (img : Image) (s : State) (pc : Nat) (off : Int)
+    (hs : s.status = .running) (hpc : s.pc = (pc : Int))
+    (hi : img.code[pc]? = some (.jump .always off)) :
+    run img 1 s = { s with pc := (pc : Int) + off } := by
+  rw [run_one _ _ hs, step_jump_always img s pc off hs hpc hi]
+
+theorem run_jump_ifFalse (img : Image) (s : State) (pc : Nat) (off : Int)
+    (hs : s.status = .running) (hpc : s.pc = (pc : Int))
+    (hi : img.code[pc]? = some (.jump .ifFalse off)) :
+    run img 1 s = { s with pc := if (s.regs .result).truthy then (pc : Int) + 1 else (pc : Int) + off } := by
+  rw [run_one _ _ hs, step_jump_ifFalse img s pc off hs hpc hi]
+
+theorem Num.cast {v : Val} {q q' : Rat} {f f' : Bool} (h : Num v q f) (hq : q = q') (hf : f = f') :
+    Num v q' f' := by subst hq; subst hf; exact h
+
+/-- **calc_counter.**  The prologue of `repeat with v from a to b`: from numbers `x` in `first`
+and `y` in `last`, the hidden counter becomes `|y − x| + 1` and `incr` becomes `+1` or `−1`
+(`−1` exactly when `y < x`); `result` is clobbered by the sign test, every other hidden variable
+is kept, nothing else changes. -/
+theorem run_calcCounter (img : Image) (s : State) (pc : Nat) (vars : List (LoopVar × Val)) (h : Nat)
+    (rest : List Frame) (x y : Rat) (fx fy : Bool)
+    (hs : s.status = .running) (hpc : s.pc = (pc : Int)) (hc : CodeAt img pc calcCounter)
+    (hst : s.stack = .loop vars h :: rest)
+    (hf : Num (getLV vars .first) x fx) (hl : Num (getLV vars .last) y fy) :
+    ∃ k vars', run img k s =
+        { s with pc := (pc : Int) + 20,
+                 regs := fun q => if q = .result then .bool (decide (y - x < 0)) else s.regs q,
+                 stack := .loop vars' h :: rest } ∧
+      Num (getLV vars' .counter) ((if y - x < 0 then -(y - x) else y - x) + 1) (fy || fx) ∧
+      getLV vars' .incr = .int (if y - x < 0 then -1 else 1) ∧
+      (∀ l, l ≠ .counter → l ≠ .incr → getLV vars' l = getLV vars l) := by
+  -- A: counter := last - first
+  obtain ⟨hsub, hc0⟩ := num_sub hl hf
+  let c0 := Val.mkNum (y - x) (fy || fx)
+  let vA := setLV vars .counter c0
+  let sA : State := { s with pc := (pc : Int) + 4, stack := .loop vA h :: rest }
+  have hA : run img 4 s = sA :=
+    run_group_lv img _ _ .sub .counter s pc _ _ c0 vars h rest hs hpc (hc.slice 0 4) hst
+      (pfStep_push_lv s s.eval .last _ (getLoopVar_eq hst _) hl.ne_none)
+      (pfStep_push_lv s _ .first _ (getLoopVar_eq hst _) hf.ne_none)
+      (by show Val.sub _ _ = _; exact hsub)
+  have hstA : sA.stack = .loop vA h :: rest := rfl
+  have hgA : getLV vA .counter = c0 := getLV_setLV_self _ _ _
+  -- B: result := counter < 0
+  let R : Reg → Val := fun q => if q = .result then .bool (decide (y - x < 0)) else s.regs q
+  let sB : State := { s with pc := (pc : Int) + 8, regs := R, stack := .loop vA h :: rest }
+  have hlt : binVal .lt c0 (.int 0) = some (.bool (decide (y - x < 0))) := by
+    have := num_lt hc0 (Num.int 0)
+    show Val.cmp .lt _ _ = _
+    simpa using this
+  have hB : run img 4 sA = sB := by
+    rw [run_group_reg img _ _ .lt .result sA (pc + 4) _ _ _ (by exact hs) (by simp [sA]) (hc.slice 4 4)
+      (pfStep_push_lv sA sA.eval .counter _ (by rw [getLoopVar_eq hstA, hgA]) hc0.ne_none)
+      (pfStep_pushq _ _ _) hlt]
+    apply State.ext' <;> first | rfl | (simp [sA, sB, R]; omega)
+  have hstB : sB.stack = .loop vA h :: rest := rfl
+  have hJ := hc.get 8 (by decide)
+  -- the tail shared by both branches: counter := counter + 1 at pc + 16
+  have tail : ∀ (vD : List (LoopVar × Val)) (c1 : Val) (q : Rat),
+      getLV vD .counter = c1 → Num c1 q (fy || fx) →
+      ∃ vars', run img 4 ({ s with pc := (pc : Int) + 16, regs := R, stack := .loop vD h :: rest } : State) =
+          { s with pc := (pc : Int) + 20, regs := R, stack := .loop vars' h :: rest } ∧
+        Num (getLV vars' .counter) (q + 1) (fy || fx) ∧
+        (∀ l, l ≠ .counter → getLV vars' l = getLV vD l) := by
+    intro vD c1 q hg hn1
+    obtain ⟨hadd, hn2⟩ := num_add hn1 (Num.int 1)
+    let sD : State := { s with pc := (pc : Int) + 16, regs := R, stack := .loop vD h :: rest }
+    have hstD : sD.stack = .loop vD h :: rest := rfl
+    refine ⟨setLV vD .counter (Val.mkNum (q + ((1 : Int) : Rat)) ((fy || fx) || false)), ?_, ?_, ?_⟩
+    · rw [run_group_lv img _ _ .add .counter sD (pc + 16) _ _ _ vD h rest (by exact hs) (by simp [sD])
+        (hc.slice 16 4) hstD
+        (pfStep_push_lv sD sD.eval .counter _ (by rw [getLoopVar_eq hstD, hg]) hn1.ne_none)
+        (pfStep_pushq _ _ _) (by show Val.add _ _ = _; exact hadd)]
+      apply State.ext' <;> first | rfl | (simp [sD]; omega)
+    · rw [getLV_setLV_self]
+      exact Num.cast hn2 (by simp) (by simp)
+    · intro l hl; exact getLV_setLV_other _ _ _ _ hl
+  by_cases hneg : y - x < 0
+  · -- negative: counter := counter * -1; incr := -1; skip
+    have hJ' : run img 1 sB = ({ s with pc := (pc : Int) + 9, regs := R, stack := .loop vA h :: rest } : State) := by
+      rw [run_jump_ifFalse img sB (pc + 8) 7 (by exact hs) (by simp [sB]) hJ]
+      apply State.ext' <;> first | rfl | (simp [sB, R, hneg, Val.truthy]; omega) | (simp [sB, R, hneg, Val.truthy])
+    obtain ⟨hmul, hc1⟩ := num_mul hc0 (Num.int (-1))
+    let c1 := Val.mkNum ((y - x) * ((-1 : Int) : Rat)) ((fy || fx) || false)
+    let vC := setLV vA .counter c1
+    let sC0 : State := { s with pc := (pc : Int) + 9, regs := R, stack := .loop vA h :: rest }
+    have hstC0 : sC0.stack = .loop vA h :: rest := rfl
+    have hC : run img 4 sC0 = ({ s with pc := (pc : Int) + 13, regs := R, stack := .loop vC h :: rest } : State) := by
+      rw [run_group_lv img _ _ .mul .counter sC0 (pc + 9) _ _ c1 vA h rest (by exact hs) (by simp [sC0])
+        (hc.slice 9 4) hstC0
+        (pfStep_push_lv sC0 sC0.eval .counter _ (by rw [getLoopVar_eq hstC0, hgA]) hc0.ne_none)
+        (pfStep_pushq _ _ _) (by show Val.mul _ _ = _; exact hmul)]
+      apply State.ext' <;> first | rfl | (simp [sC0]; omega)
+    let vD := setLV vC .incr (.int (-1))
+    have hD : run img 1 ({ s with pc := (pc : Int) + 13, regs := R, stack := .loop vC h :: rest } : State) =
+        ({ s with pc := (pc : Int) + 14, regs := R, stack := .loop vD h :: rest } : State) := by
+      rw [run_moveq_lv img _ (pc + 13) .incr (.int (-1)) vC h rest (by exact hs) (by simp)
+        (hc.get 13 (by decide)) rfl]
+      apply State.ext' <;> first | rfl | (simp; omega)
+    have hE : run img 1 ({ s with pc := (pc : Int) + 14, regs := R, stack := .loop vD h :: rest } : State) =
+        ({ s with pc := (pc : Int) + 16, regs := R, stack := .loop vD h :: rest } : State) := by
+      rw [run_jump_always img _ (pc + 14) 2 (by exact hs) (by simp) (hc.get 14 (by decide))]
+      apply State.ext' <;> first | rfl | (simp; omega)
+    have hgD : getLV vD .counter = c1 := by
+      rw [getLV_setLV_other _ _ _ _ (by simp), getLV_setLV_self]
+    obtain ⟨vars', hT, hn', hoth⟩ := tail vD c1 (-(y - x)) hgD (Num.cast hc1 (by simp; grind) (by simp))
+    refine ⟨4 + (4 + (1 + (4 + (1 + (1 + 4))))), vars', ?_, ?_, ?_, ?_⟩
+    · exact run_trans hA (run_trans hB (run_trans hJ' (run_trans hC (run_trans hD (run_trans hE hT)))))
+    · simpa [hneg] using hn'
+    · rw [hoth _ (by simp)]; simp [hneg, vD, getLV_setLV_self]
+    · intro l h1 h2
+      rw [hoth l h1, getLV_setLV_other _ _ _ _ h2, getLV_setLV_other _ _ _ _ h1,
+        getLV_setLV_other _ _ _ _ h1]
+  · -- non-negative: incr := 1
+    have hJ' : run img 1 sB = ({ s with pc := (pc : Int) + 15, regs := R, stack := .loop vA h :: rest } : State) := by
+      rw [run_jump_ifFalse img sB (pc + 8) 7 (by exact hs) (by simp [sB]) hJ]
+      apply State.ext' <;> first | rfl | (simp [sB, R, hneg, Val.truthy]; omega) | (simp [sB, R, hneg, Val.truthy])
+    let vD := setLV vA .incr (.int 1)
+    have hD : run img 1 ({ s with pc := (pc : Int) + 15, regs := R, stack := .loop vA h :: rest } : State) =
+        ({ s with pc := (pc : Int) + 16, regs := R, stack := .loop vD h :: rest } : State) := by
+      rw [run_moveq_lv img _ (pc + 15) .incr (.int 1) vA h rest (by exact hs) (by simp)
+        (hc.get 15 (by decide)) rfl]
+      apply State.ext' <;> first | rfl | (simp; omega)
+    have hgD : getLV vD .counter = c0 := by
+      rw [getLV_setLV_other _ _ _ _ (by simp), hgA]
+    obtain ⟨vars', hT, hn', hoth⟩ := tail vD c0 (y - x) hgD hc0
+    refine ⟨4 + (4 + (1 + (1 + 4))), vars', ?_, ?_, ?_, ?_⟩
+    · exact run_trans hA (run_trans hB (run_trans hJ' (run_trans hD hT)))
+    · simpa [hneg] using hn'
+    · rw [hoth _ (by simp)]; simp [hneg, vD, getLV_setLV_self]
+    · intro l h1 h2
+      rw [hoth l h1, getLV_setLV_other _ _ _ _ h2, getLV_setLV_other _ _ _ _ h1]
+
+
 end Bardolph
